@@ -386,7 +386,13 @@ def check_pow(world: World, m, degree):
                 halves = isinstance(oth2, Term) and ((oth2.op == "rshift" and oth2.args == (cur, 1)) or (oth2.op == "floordiv" and oth2.args == (cur, 2)))
                 inv_after = o2.e + t2.e * h
                 inv_before = EO + ET * (Poly.const(2) * h + Poly.const(b))
-                if not (halves and (inv_after - inv_before).is_zero()):
+                diff = inv_after - inv_before
+                # a path of the body that tested the halved exponent and found it zero (`if other: t = t * t` — the last,
+                # unread squaring skipped): h = 0 there
+                if halves and any(isinstance(a_, Term) and a_.op == "eq" and tv_ is True and 0 in a_.args and oth2 in a_.args
+                                  for a_, tv_ in it.facts.items()):
+                    diff = diff.subs({"h": Poly.const(0)})
+                if not (halves and diff.is_zero()):
                     ok_all = False
                     detail = (f"bit {b}: acc·base^e after the body has exponent {inv_after!r}, before {inv_before!r}; "
                               f"exponent halves: {halves}")
